@@ -311,7 +311,7 @@ def main(tier):
                         run.violation(cls, '%s  (history: %s)' % (text, ' | '.join(ev_str(e) for e in h)),
                                       {'engine': 'conf', 'events': [[k, (v if isinstance(v, str) else v.decode('latin-1'))] for k, v in hist_events(h)],
                                        'symbolic': [ev_str(e) for e in h], 'clause': cls},
-                                      dedup=cls + '|' + text.split(' ')[0] + '|' + (lab[0] if lab[0] == 'load' else lab[1]) + '|' + text[:60])
+                                      dedup=cls + '|' + text.split(' ')[0] + '|' + str(lab[0] if lab[0] == 'load' else lab[1]) + '|' + text[:60])
                 for lab, dk, nreg, nlast, nhooks in out['succ']:
                     hook_runs += nhooks
                     if dk in seen:
